@@ -21,12 +21,14 @@ RULE = ("seeded histories (<=10 quick / <=16 thorough operations) over consume (
         "amounts are boundary-relative (balance, balance+-1, capacity, atp+nadh, remaining debt room) or absolute; "
         "non-trivial = history that exercised >= 2 of {NADH top-up, debt, starvation/dormancy gating, clamp at capacity, "
         "zero-capacity store}; distinct = distinct (configuration, operation list)")
-COMPONENTS = {"real": ["operon_ai.state.metabolism.ATP_Store (two instances)"], "stub": ["threading.Lock (SimLock, never contended)"]}
+COMPONENTS = {"real": ["operon_ai.state.metabolism.ATP_Store (two instances)"],
+              "stub": ["threading.Lock (SimLock, never contended)", "on_state_change callback (recording / raising fake)"]}
 ASSUMPTIONS = ["non-negative integer arguments only", "balances left above capacity by a failed spend's NADH top-up, and energy a later "
                "regenerate/transfer loses because of it, are not violations (energy is lost, never created)",
-               "a raising on_state_change callback is the caller's own exception and is not injected"]
+               "an exception raised by the on_state_change collaborator is the caller's own: that call's return value is not "
+               "judged, the ledger clauses (nothing created, limits respected, charge is 0 or exactly the cost) still are"]
 EXPECT_PROBES = ("nadh_topup", "debt_taken", "gated", "clamped", "zero_capacity", "debt_with_topup", "nadh_debt",
-                 "interest_applied", "transfer_ok")
+                 "interest_applied", "transfer_ok", "callback_raised")
 
 CUR = {"atp": EnergyType.ATP, "gtp": EnergyType.GTP, "nadh": EnergyType.NADH}
 
@@ -41,7 +43,11 @@ def gen(rng, tier, i):
     def store():
         return {"budget": rng.choice([0, 0, 1, 5, 10, 20]), "gtp": rng.choice([0, 0, 0, 4, 10]),
                 "nadh": rng.choice([0, 0, 3, 8]), "max_debt": rng.choice([0, 0, 5, 10, 30]),
-                "interest": rng.choice([0.1, 0.1, 0.5, 1.0])}
+                "interest": rng.choice([0.1, 0.1, 0.5, 1.0]),
+                # on_state_change collaborator: absent, recording, or raising when a listed state is entered
+                "cb": weighted(rng, [(6, None), (1, []), (1.5, [rng.choice(["NORMAL", "CONSERVING", "STARVING", "FEASTING"])]),
+                                     (0.7, ["NORMAL", "CONSERVING", "STARVING", "FEASTING"])]),
+                "silent": rng.random() < 0.85}
     stores = [store(), store()]
     n = rng.randint(2, 10 if tier == "quick" else 16)
     ops = []
@@ -72,6 +78,15 @@ def simplify(plan):
                 ns = [dict(x) for x in stores]
                 ns[j][key] = 0
                 yield {**plan, "config": {"stores": ns}}
+    for j, s in enumerate(stores):
+        if s.get("cb") is not None:
+            ns = [dict(x) for x in stores]
+            ns[j]["cb"] = None
+            yield {**plan, "config": {"stores": ns}}
+        if s.get("silent") is False:
+            ns = [dict(x) for x in stores]
+            ns[j]["silent"] = True
+            yield {**plan, "config": {"stores": ns}}
     for oi, op in enumerate(plan["ops"]):
         if op[0] == "consume" and op[5]:
             ops = [list(o) for o in plan["ops"]]
@@ -95,6 +110,10 @@ def _resolve(st, cfg, amt, cur):
     return max(0, int(v))
 
 
+class CallbackFault(Exception):
+    """Raised by the fake on_state_change collaborator (the caller's own exception)."""
+
+
 def _bals(st):
     return (st.get_balance(EnergyType.ATP), st.get_balance(EnergyType.GTP), st.get_balance(EnergyType.NADH), st.get_debt())
 
@@ -105,8 +124,20 @@ def _w(b):
 
 def run(plan, k):
     cfgs = plan["config"]["stores"]
+
+    def mk_cb(si, raise_on):
+        def cb(state):
+            name = getattr(state, "name", str(state))
+            k.ev("state_change", [si, name])
+            if name in raise_on:
+                k.fault("collab_raise")
+                k.probe("callback_raised")
+                raise CallbackFault(name)
+        return cb
     stores = [ATP_Store(budget=c["budget"], gtp_budget=c["gtp"], nadh_reserve=c["nadh"], regeneration_rate=0.0,
-                        max_debt=c["max_debt"], debt_interest=c["interest"], silent=True) for c in cfgs]
+                        max_debt=c["max_debt"], debt_interest=c["interest"],
+                        on_state_change=(mk_cb(si, c["cb"]) if c.get("cb") is not None else None),
+                        silent=c.get("silent", True)) for si, c in enumerate(cfgs)]
     caps = [(c["budget"], c["gtp"], c["nadh"]) for c in cfgs]
     interest = [0, 0]            # interest added to debt so far (per store)
     spent = [0, 0]               # successful spend since reset (for total_consumed)
@@ -160,6 +191,40 @@ def run(plan, k):
         W1 = sum(_w(b) for b in b1)
         k.ev(name, [desc[1:], out.brief(), b1])
 
+        # an exception thrown by the on_state_change collaborator is the caller's own: the call has no return
+        # value to judge, but the ledger clauses still hold (nothing is created, limits are respected)
+        by_callback = out.kind == "raised" and isinstance(out.exc, CallbackFault)
+        if by_callback:
+            for si, b in enumerate(b1):
+                if min(b[0], b[1], b[2]) < 0:
+                    k.violation("no_overdraft", "negative_balance", ["atp", "gtp", "nadh"][b.index(min(b[:3]))],
+                                f"store{si} {b} after {desc} (callback raised)")
+                if b[3] - interest[si] > cfgs[si]["max_debt"]:
+                    k.violation("no_overdraft", "debt_over_limit", "debt", f"store{si} {b} after {desc} (callback raised)")
+            dWs = _w(b1[s]) - _w(b0[s])
+            if name == "consume":
+                if dWs not in (0, -cost) or b1[1 - s] != b0[1 - s]:
+                    k.violation("exact_charge", "callback_fault_changed_charge", op[3],
+                                f"{desc}: net worth changed by {dWs}, expected 0 or -{cost}; {b0} -> {b1}")
+                if dWs == -cost:
+                    spent[s] += cost
+                    since_inflow[s] += cost
+            elif name == "regenerate":
+                if dWs > amt:
+                    k.violation("cap", "regenerated_more_than_amount", op[3], f"{desc} {b0[s]} -> {b1[s]} (callback raised)")
+            if name not in ("regenerate", "reset") and W1 > W0:
+                k.violation("transfer_conserves" if name == "transfer" else "total",
+                            "energy_created_when_callback_raised", name, f"{desc} {b0} -> {b1}")
+            for si in range(2):
+                if _w(b1[si]) > _w(b0[si]) or name == "reset" and si == s:
+                    since_inflow[si] = 0
+                    w_at_inflow[si] = _w(b1[si])
+            if name == "reset":
+                spent[s] = 0
+                interest[s] = 0
+            if name == "interest":
+                interest[s] += max(b1[s][3] - b0[s][3], 0)
+            continue
         # (h) no operation raises
         if out.kind != "ok":
             k.violation("total", f"raised:{type(out.exc).__name__}" if out.kind == "raised" else out.kind, name,
